@@ -2660,7 +2660,11 @@ extract_manifest_args(const string &name, int num_args, int va_arg,
     int paren_level = 1;
     string arg;
     while (c != EOF) {
-      if (c == ',' && paren_level == 1) {
+      if (c == ',' && paren_level == 1 &&
+          (va_arg < 0 || (int)args.size() < va_arg)) {
+        // (Once the variable arguments are reached, commas no longer
+        // separate arguments: __VA_ARGS__ stands for all of them, spelled
+        // the way they were written.)
         args.push_back(trim_blanks(arg));
         arg = "";
         c = get();
